@@ -92,9 +92,15 @@ def check_history(rec, resumed=False):
     if h is None or rec["exception"] is not None:
         return out
     n = len(h["beta"])
-    for series in ("ess", "ess_target", "eff_target", "log_norm_ratio", "log_norm_ratio_var", "mcmc_acceptance"):
+    cfg = rec.get("cfg") or {}
+    enlarged = bool((cfg.get("opts") or {}).get("n_final_samples") or cfg.get("n_final"))
+    for series in ("ess", "ess_target", "eff_target", "log_norm_ratio", "log_norm_ratio_var", "mcmc_acceptance", "mcmc_autocorr"):
+        if series not in h or (series == "mcmc_autocorr" and not h[series]):
+            continue
         if len(h[series]) != n:
-            out.append((f"C18/series-length/{series}", {"len": len(h[series]), "iterations": n}))
+            extra = len(h[series]) - n
+            why = "after-n_final_samples-enlargement" if (enlarged and extra == 1 and series.startswith("mcmc_")) else "other"
+            out.append((f"C18/series-length/{series}/extra={extra}/{why}", {"len": len(h[series]), "iterations": n}))
     sh = h["sample_history"]
     if len(sh) != n + 1:
         out.append((f"C18/sample_history-length/{'resumed' if resumed else 'fresh'}/extra={len(sh) - n - 1}",
